@@ -32,21 +32,49 @@ RULE = (
     "same datagram, its plaintext decodes independently to the intended scoped PDU, no "
     "8-octet window of the plaintext PDU and no SET marker occurs in the datagram; for "
     "responses decrypt_data received the message's own priv-params/engine id/boots/time and "
-    "the same key, and the result is correct. Distinct by (hash, plug-in, op, key/engine/ctx "
+    "the same key, and the result is correct. One case in three reuses a fixed engine id "
+    "(same user, other passwords: stale per-engine state shows), one in four rotates the "
+    "privacy password/plug-in on the live client and repeats all monitors, one in ten uses a "
+    "privacy password WITHOUT an authentication key (nothing may leave in clear). Distinct by (hash, plug-in, op, key/engine/ctx "
     "lengths)."
 )
 ASSUMPTIONS = [
     "the only thing assumed about a privacy plug-in is decrypt(encrypt(x)) == x; all harness plug-ins satisfy it exactly",
     "8-octet windows are taken from the PDU part of the plaintext (the contextEngineID legitimately also travels in clear as msgAuthoritativeEngineID)",
 ]
-REQUIRED_MONITORS = ("encrypt_calls_matched", "decrypt_calls_matched", "plaintext_windows_checked", "marker_checked", "results_correct")
+REQUIRED_MONITORS = ("encrypt_calls_matched", "decrypt_calls_matched", "plaintext_windows_checked", "marker_checked", "results_correct", "rotations_ok", "priv_without_auth_nothing_in_clear")
 
 VARIANTS = ("vfstream8", "vfstream0", "vfstream16", "vfframe")
 OPS = ("get", "multiget", "getnext", "bulkget", "set", "multiset", "walk", "bulkwalk")
 BASE = (1, 3, 6, 1, 2, 1, 1)
 
 
-def run_case(R, level, variant, op, auth_pw, priv_pw, engine_id, ctx_name, boots, tshift, marker):
+def run_noauth_priv(R, variant, priv_pw, engine_id, marker):
+    """Privacy password WITHOUT an authentication key: nothing may leave in clear."""
+    from puresnmp import V3, Client, Priv
+
+    db = {BASE + (4, 0): ("str", b"old")}
+    w = World("v3-noauth", db, agent_kwargs={"engine_id": engine_id})
+    client = Client("192.0.2.1", V3(rig.USER, None, Priv(priv_pw, variant)), sender=w.seam)
+    w.seam.budget = 10
+    privxf.CALLS.clear()
+    case = {"class": "priv-without-auth", "variant": variant, "priv_pw": "hex:" + priv_pw.hex(), "engine_id": "hex:" + engine_id.hex(), "marker": "hex:" + marker.hex()}
+    try:
+        res = rig.outcome(lambda: drive(client.set(OID(BASE + (4, 0)), rig.from_tuple(("str", marker)))))
+    except rig.BudgetExceeded:
+        res = ("exc", "budget")
+    R.case(("c11-noauth-priv", variant, len(priv_pw), len(engine_id)), True, sample={**case, "outcome": res[0] if res[0] != "exc" else repr(res[1])[:120], "datagrams": len(w.seam.requests)} if R.evaluations % 53 == 0 else None)
+    for raw in w.seam.requests:
+        m = ber.decode_message(raw)
+        if m["usm"]["engine_id"] == b"" and m["usm"]["user"] == b"":
+            continue
+        if "scoped" in m or marker in raw:
+            R.violation(case, "privacy credentials (no auth key): the scoped PDU left in clear (msgFlags=%d): %s" % (m["flags"], raw.hex()[:160]), None)
+            return
+    R.mon["priv_without_auth_nothing_in_clear"] += 1
+
+
+def run_case(R, level, variant, op, auth_pw, priv_pw, engine_id, ctx_name, boots, tshift, marker, rotate=None):
     hashname = "md5" if "md5" in level else "sha1"
     db = {BASE + (i, 0): ("str", b"value-%d-" % i + hashlib.sha256(b"v%d" % i).digest()[:10]) for i in range(1, 6)}
     agent_clock = env.Clock()
@@ -194,6 +222,35 @@ def run_case(R, level, variant, op, auth_pw, priv_pw, engine_id, ctx_name, boots
         R.violation(case, "agent counters %r" % bad, None)
         return
     R.mon["results_correct"] += 1
+    if rotate is not None:
+        # the privacy password is rotated on the SAME client / user / engine:
+        # every monitor above must hold again under the new key
+        new_pw, new_variant = rotate
+        from puresnmp import V3, Auth, Priv
+
+        w.agent.users[rig.USER.encode()] = rig.agent_user_for(level, auth_pw=auth_pw, priv_pw=new_pw, variant=new_variant)
+        c.configure(credentials=V3(rig.USER, Auth(auth_pw, hashname), Priv(new_pw, new_variant)))
+        privxf.CALLS.clear()
+        n0 = len(w.seam.requests)
+        res2 = rig.outcome(lambda: drive(c.get(OID(BASE + (1, 0)))))
+        want_key2 = ber.localized_key(hashname, new_pw, engine_id)
+        calls2 = list(privxf.CALLS)
+        bad = [x for x in calls2 if x["key"] != want_key2]
+        if bad:
+            R.violation(dict(case, rotated_priv_pw="hex:" + new_pw.hex()), "after the privacy password was changed the plug-in still received key %s (new Kul is %s)" % (bad[0]["key"].hex(), want_key2.hex()), None)
+            return
+        if res2[0] != "ok" or rig.to_tuple(res2[1]) != db[BASE + (1, 0)]:
+            R.violation(dict(case, rotated_priv_pw="hex:" + new_pw.hex()), "round trip after rotating the privacy password failed: %r" % (res2[1],), None)
+            return
+        for raw in w.seam.requests[n0:]:
+            m = ber.decode_message(raw)
+            if "encrypted" not in m:
+                R.violation(case, "after rotation: msgData not encrypted", None)
+                return
+        R.mon["rotations_ok"] += 1
+
+
+FIXED_ENGINE = bytes.fromhex("80001f8804") + b"c11-fixed-engine"
 
 
 def run(R):
@@ -214,10 +271,23 @@ def run(R):
         boots = rng.choice((0, 1, 255, 65536, 2**31 - 2))
         tshift = rng.choice((0, 5, 86400, 10**8))
         marker = hashlib.sha256(b"marker-%d-%d" % (R.seed, i)).digest()[:16]
-        run_case(R, level, variant, op, auth_pw, priv_pw, engine_id, ctx_name, boots, tshift, marker)
+        if i % 3 == 0:
+            # same user on the same engine across cases of this process, with other
+            # passwords: anything remembered per (user, engine) becomes stale
+            engine_id = FIXED_ENGINE
+        rotate = None
+        if i % 4 == 1:
+            rotate = (bytes(rng.randint(33, 126) for _ in range(rng.choice((1, 8, 13)))), VARIANTS[(i // 4) % len(VARIANTS)])
+        run_case(R, level, variant, op, auth_pw, priv_pw, engine_id, ctx_name, boots, tshift, marker, rotate=rotate)
+        if i % 10 == 7:
+            run_noauth_priv(R, variant, priv_pw, engine_id, marker)
 
 
 def replay(R, v):
     c = v["case"]
     h = lambda k: bytes.fromhex(c[k][4:])  # noqa: E731
-    run_case(R, c["level"], c["variant"], c["op"], h("auth_pw"), h("priv_pw"), h("engine_id"), h("ctx_name"), c["boots"], c["tshift"], h("marker"))
+    if c.get("class") == "priv-without-auth":
+        run_noauth_priv(R, c["variant"], h("priv_pw"), h("engine_id"), h("marker"))
+        return
+    rotate = (h("rotated_priv_pw"), c["variant"]) if "rotated_priv_pw" in c else None
+    run_case(R, c["level"], c["variant"], c["op"], h("auth_pw"), h("priv_pw"), h("engine_id"), h("ctx_name"), c["boots"], c["tshift"], h("marker"), rotate=rotate)
